@@ -4,7 +4,8 @@
    Clause codes (returned on failure):
      1 outcome class differs from the built-in dict on validated keys/values
      2 contents differ from the built-in dict on validated keys/values
-     8 return value differs from the built-in dict
+     8 return value differs from the built-in dict (popitem: the item inserted last)
+     9 the iteration order of the keys differs from the built-in dict's insertion order
      3 a failing operation changed the contents or notified somebody; a construction notified somebody
    per notification channel (base 0: plain notifier registered first, base 10:
    plain notifier registered after an observe() handler, base 20: the
@@ -139,13 +140,11 @@ Section Law.
         | Some x => (Ok, mremove k m, RVal x)
         | None => (Ok, m, RVal d)
         end
-    | PopItem =>
-        if mempty m then (Raise KeyError, m, RNone)
-        else match ret with
-             | RItem k v => if oz_eqb (lookup k m) (Some v) then (Ok, mremove k m, ret)
-                            else (Raise OtherError, m, RNone)
-             | _ => (Raise OtherError, m, RNone)
-             end
+    | PopItem =>                                    (* LIFO: the item inserted last *)
+        match last_item m with
+        | None => (Raise KeyError, m, RNone)
+        | Some (k, v0) => (Ok, mremove k m, RItem k (match lookup k m with Some x => x | None => v0 end))
+        end
     | Clear => (Ok, [], RNone)
     | Ctor a ps =>                                  (* dict(validated items) *)
         match validate_pairs (items_of a ps) with
@@ -155,11 +154,21 @@ Section Law.
     end.
 
   (* refinement clauses 1, 2, 8 *)
-  Definition ref_codes (before : amap) (o : op) (ob : obs) : list Z :=
+  Definition ref_codes3 (before : amap) (o : op) (ob : obs) : list Z :=
     let '(bo, ba, br) := builtin before o (o_ret ob) in
     chk 1 (outcome_eqb (o_out ob) bo)
     ++ chk 2 (mapeq (o_after ob) ba)
     ++ chk 8 (retv_eqb (o_ret ob) br).
+
+  (* clause 9: the iteration (insertion) order of the keys is that of the built-in dict: an overwritten key keeps
+     its place, a new key goes to the end (checked for every operation but update / |=, whose order is compared
+     with the model's in the correspondence) *)
+  Definition order_checked (o : op) : bool := match o with Update _ _ | Ior _ _ => false | _ => true end.
+  Definition order_ok (before : amap) (o : op) (ob : obs) : bool :=
+    let '(bo, ba, br) := builtin before o (o_ret ob) in
+    negb (order_checked o) || list_eqb Z.eqb (keys (o_after ob)) (keys ba).
+  Definition ref_codes (before : amap) (o : op) (ob : obs) : list Z :=
+    ref_codes3 before o ob ++ chk 9 (order_ok before o ob).
 
   Definition silent (ob : obs) : bool :=
     is_nil (o_events ob) && is_nil (o_events2 ob) && is_nil (o_oevents ob)
